@@ -587,4 +587,6 @@ static std::string utf_probe()
     return o.str();
 }
 
+VH_STARTUP_PROBE(utf_probe)
+
 int main(int argc, char **argv) { vh::g_probe = utf_probe; return run_main(argc, argv, dispatch); }
